@@ -31,6 +31,31 @@ fn oracle_dpl(low: u64) -> u16 {
     ((low / (1u64 << 45)) % 4) as u16
 }
 
+fn stub_virt_new_gdt(addr: u64) -> crate::VirtAddr {
+    // CBMC object addresses are not canonical; the real constructor is decided for all 2^64 inputs in C03
+    unsafe { crate::VirtAddr::new_unsafe(addr) }
+}
+/// `load` / `load_unsafe` hand the CPU the table's own address and the limit of the *used* slots (8 x len - 1),
+/// with exactly one `lgdt`, and change nothing else.
+#[kani::proof]
+#[kani::stub(crate::addr::VirtAddr::new, stub_virt_new_gdt)]
+fn c14_load_hands_cpu_used_slots() {
+    use crate::verif_isa as isa;
+    let before = isa::havoc();
+    let t = any_table::<8>();
+    unsafe { t.load_unsafe() };
+    let mut want = before;
+    want.gdtr_base = t.table.as_ptr() as u64;
+    want.gdtr_limit = (8 * t.len - 1) as u16;
+    vp!(C14, isa::m().gdtr_limit == want.gdtr_limit, "load gave the CPU a limit that is not 8 x used slots - 1");
+    vp!(C14, isa::m().gdtr_base == want.gdtr_base, "load gave the CPU a base that is not the table's address");
+    vp!(C14, isa::m().arch_eq(&want) && isa::m().clean(), "load changed other machine state");
+    vp!(C14, isa::m().count(isa::EV_LGDT) == 1 && isa::m().nlog == 1, "load is not exactly one lgdt");
+    vp!(C14, t.limit() == want.gdtr_limit, "limit() differs from what load hands the CPU");
+    kani::cover!(t.len == 8);
+    kani::cover!(t.len == 1);
+}
+
 macro_rules! gdt_for_max {
     ($m:ident, $MAX:expr, $UNW:expr, $FITS:meta, $n_fits:ident, $n_full:ident, $n_raw:ident, $n_empty:ident) => {
         mod $m {
